@@ -63,6 +63,7 @@ class Report:
         self.analysed = {}       # free-form counters: functions, paths, call sites
         self.notes = []          # evidence remarks (unclassified items, stale table rows)
         self.controls = []       # positive / mutation / variant controls
+        self.undecided_list = []  # constructs whose shape a rule could not decide (reported, not an alarm)
         self.t0 = time.time()
         self._keys = set()
 
@@ -90,6 +91,13 @@ class Report:
         if any((not o.ok) and o.rule == full_rule for o in self.obligations):
             return None
         return self.ob(rule, key, True, None, detail, nontrivial=nontrivial)
+
+    def undecided(self, rule, key, node=None, detail=''):
+        """the construct is not in an idiom family this rule can decide: recorded, never an alarm.
+        (A restructured construct is not evidence of a violation; see DESIGN.md section 3.)"""
+        where = self.repo.where(node) if node is not None and not isinstance(node, str) else (node or '')
+        full_rule = '%s.%s' % (self.pid, rule) if not rule.startswith(self.pid) else rule
+        self.undecided_list.append({'rule': full_rule, 'construct': key, 'where': where, 'detail': detail})
 
     def count(self, name, n=1):
         self.analysed[name] = self.analysed.get(name, 0) + n
@@ -177,6 +185,7 @@ class Report:
                 'exhaustive': True,
                 'analysed': {'modules': self.repo.coverage(), **self.analysed},
                 'controls': self.controls,
+                'undecided': self.undecided_list,
                 'notes': self.notes,
                 'not_decided': meta.get('not_decided', ''),
                 'checker_cmd': './check %s --tier %s' % (self.pid, self.tier),
@@ -189,8 +198,10 @@ class Report:
             os.makedirs(evidence_dir, exist_ok=True)
             with open(os.path.join(evidence_dir, self.pid + '.json'), 'w') as fh:
                 json.dump(ev, fh, indent=1)
-        out('%s [%s]: %d obligations, %d discharged, %d known finding(s), %d new violation(s); '
+        for u in self.undecided_list:
+            out('UNDECIDED %s %s at %s: %s' % (u['rule'], u['construct'], u['where'], u['detail']))
+        out('%s [%s]: %d obligations, %d discharged, %d known finding(s), %d new violation(s), %d undecided; '
             '%d control(s); %.2fs' % (self.pid, self.tier, len(self.obligations),
                                       len(self.obligations) - len(viol), len(viol) - len(new),
-                                      len(new), len(self.controls), time.time() - self.t0))
+                                      len(new), len(self.undecided_list), len(self.controls), time.time() - self.t0))
         return 1 if new else 0, ev
